@@ -1,12 +1,15 @@
 (* Props/C12.v — discriminators pick the same body type both ways; unknown ones are errors. *)
 From FP.Props Require Import Common.
-From FP.Theory Require Import Select.
+From FP.Theory Require Import Select TableEquiv.
 From FP.Pinned Require Import Pinned.
 Local Open Scope N_scope.
 
-(* the 18 tables of the code are the pinned tables: same keys, same body types (226 keys) *)
-Lemma H_tables : tables = pinned_tables.
+(* the 18 tables of the code are the pinned tables as maps: same table ids, same keys, same body types (226 keys);
+   the order in which init() registers the entries does not matter *)
+Lemma H_tables : tables_equivb tables pinned_tables = true.
 Proof. vm_compute. reflexivity. Qed.
+Lemma tables_select : forall tbl kv, selected tables tbl kv = selected pinned_tables tbl kv.
+Proof. exact (tables_equivb_sound tables pinned_tables H_tables). Qed.
 Lemma H_sels : sels_ok schemas = true.
 Proof. vm_compute. reflexivity. Qed.
 Example C12_table_census :
@@ -30,7 +33,9 @@ Proof.
   rewrite spec_dec_at in H by (apply ids_unique_pre with (rest := rest'); rewrite <- Hsplit; exact H_unique).
   pose proof H_sels as Hs. unfold sels_ok in Hs. rewrite forallb_forall in Hs. specialize (Hs sd Hin).
   pose proof (sel_ok_nth _ _ _ _ _ _ _ Hs Hi) as Hk.
-  rewrite <- H_tables. eapply parse_fields_selects; eassumption.
+  cut (exists kv ty bfs, nth_error fs key = Some kv /\ selected tables tbl kv = Some ty /\ nth_error fs i = Some (VObj ty bfs)).
+  { intros [kv [ty [bfs [A [B C]]]]]. exists kv, ty, bfs. rewrite <- tables_select. auto. }
+  eapply parse_fields_selects; eassumption.
 Qed.
 
 Theorem C12_decode_rejects_unregistered : forall sd i f g p tbl key r buf fs rest,
@@ -59,7 +64,9 @@ Proof.
   rewrite Hs in E. cbn [spec_enc_schema] in E.
   pose proof H_sels as Hsel. unfold sels_ok in Hsel. rewrite forallb_forall in Hsel. specialize (Hsel sd Hin). rewrite Hs in Hsel. cbn [schema_kinds] in Hsel.
   destruct (fill_ok_nth _ _ _ _ _ _ _ Hsel Hi) as [_ Hk].
-  rewrite <- H_tables. eapply render_fields_fills; eassumption.
+  cut (exists kv ty bfs, nth_error fs' key = Some kv /\ selected tables tbl kv = Some ty /\ nth_error fs' i = Some (VObj ty bfs)).
+  { intros [kv [ty [bfs [A [B C]]]]]. exists kv, ty, bfs. rewrite <- tables_select. auto. }
+  eapply render_fields_fills; eassumption.
 Qed.
 
 Theorem C12_encode_rejects_unregistered : forall sd ks i g p d tbl key fs buf fs' buf',
